@@ -6,6 +6,62 @@ import os
 VERIF = os.path.dirname(os.path.dirname(os.path.abspath(__file__)))
 
 CHECKS = {
+    "C02": {
+        "category": "proof",
+        "text": "Coq theorems over Model/Queue.v (one function per Store method, both backend flavours, all configurations, all argument values, validated oracle for the store's own choices): every reachable state stores each id once in exactly one coherent state (invariant by induction over arbitrary histories); every step of every history is a per-message application of the documented machine ([change]: same / expired lease released / dequeued / settled through its current unexpired lease / operator mutation from an allowed state) plus documented removals ([removal]: ack without delivered-retention, DLQ delete of a dead message, retention prune of a non-leased eligible message, drop_oldest eviction of a queued message by a successful enqueue) plus the verbatim messages of a successful enqueue; immutable fields never change; a leased message disappears only through its own ack; an operation that returns an error changes nothing beyond releasing expired leases (and the interval-gated prune). Tied to the code by executing generated histories on the real memory and SQLite stores and on the model and comparing a checksum of (result, complete stored state incl. lease fields) after every step; the executable monitor P_C02 is evaluated on the implementation trace.",
+        "design_ref": "DESIGN.md section 5 C02, section 12",
+        "note": "Trusted: Coq kernel (coqc 8.16.1, vm_compute; no axioms: every Print Assumptions is closed); the correspondence harness (Go harness mounted with -overlay, Python driver, checksum comparison of result + complete stored state after every step); store methods are treated as atomic steps (one mutex / one SQLite transaction on one pooled connection) and histories are sequential; the SQLite engine itself; Postgres backend cannot run here (read only). Payload/headers/trace are opaque handles in this model. Nondeterministic choices of the store (which ready messages a dequeue picks, generated ids, victims among equally old messages) are oracle inputs validated by the model, not predicted.",
+        "technique": "Coq proof (invariant + step specification by induction over histories) + per-step differential correspondence with both real stores",
+    },
+    "C03": {
+        "category": "proof",
+        "text": "Coq theorems: a dequeue returns only messages that are ready (queued, due, matching) after pruning and release of expired leases, pairwise distinct, each leased under a lease id never issued before in the whole history (NoDup of all ids handed out, by induction), attempt+1, lease_until = now+ttl > now, exactly min(batch', ready) of them; a message that is leased-and-unexpired, not due, canceled, dead or delivered is never returned; a lease ends only by expiry, by ack/nack/dead presenting that lease before it expired, or by operator cancel (so two dequeues of one message are separated by such an event); no lease id is held by two messages. Schedules: theorems quantify over all interleavings of atomic store steps (= all op lists). Tied to the code by the per-step correspondence on lease-heavy histories with clock steps across lease boundaries, both backends.",
+        "design_ref": "DESIGN.md section 5 C03, section 12",
+        "note": "Trusted: Coq kernel (coqc 8.16.1, vm_compute; no axioms: every Print Assumptions is closed); the correspondence harness (Go harness mounted with -overlay, Python driver, checksum comparison of result + complete stored state after every step); store methods are treated as atomic steps (one mutex / one SQLite transaction on one pooled connection) and histories are sequential; the SQLite engine itself; Postgres backend cannot run here (read only). Payload/headers/trace are opaque handles in this model. Nondeterministic choices of the store (which ready messages a dequeue picks, generated ids, victims among equally old messages) are oracle inputs validated by the model, not predicted. Thread-level interleavings inside the Go runtime are not enumerated: atomicity of a store method is an assumption (mutex / BEGIN IMMEDIATE on a single connection), freshness of real lease ids is 64 random bits. The dispatcher lease-TTL arithmetic (routeLeaseTTL) is proved in C06.",
+        "technique": "Coq proof over all histories of atomic steps + per-step differential correspondence with both real stores",
+    },
+    "C04": {
+        "category": "proof",
+        "text": "Coq theorems: ack/nack/positive extend/dead-letter with lease id x succeed and apply their effect to exactly one message iff x is that message's current unexpired lease; otherwise the answer is a conflict (not found / expired) and nothing changes except that a message still leased under x whose lease has expired returns to the queue; blank/unknown ids conflict without effect; extend by <= 0 is the documented no-op; batch calls obey the same rule per id (soundness and completeness: a presented current lease takes effect exactly once, duplicates conflict); operator mutations clear the lease and a lease id that no message holds any more is never current again in any continuation (fresh ids). Tied to the code by per-step correspondence on histories that present old, foreign, duplicate, blank and padded lease ids, both backends.",
+        "design_ref": "DESIGN.md section 5 C04, section 12",
+        "note": "Trusted: Coq kernel (coqc 8.16.1, vm_compute; no axioms: every Print Assumptions is closed); the correspondence harness (Go harness mounted with -overlay, Python driver, checksum comparison of result + complete stored state after every step); store methods are treated as atomic steps (one mutex / one SQLite transaction on one pooled connection) and histories are sequential; the SQLite engine itself; Postgres backend cannot run here (read only). Payload/headers/trace are opaque handles in this model. Nondeterministic choices of the store (which ready messages a dequeue picks, generated ids, victims among equally old messages) are oracle inputs validated by the model, not predicted. The pull-API idempotent duplicate answer (recentLeaseOps) and the HTTP/gRPC status mapping are not modelled in this revision; the store-level fencing they rest on is.",
+        "technique": "Coq proof + per-step differential correspondence with both real stores",
+    },
+    "C05": {
+        "category": "proof",
+        "text": "Coq theorems: dequeue returns exactly min(clamp(batch), ready) items; nack d schedules exactly now+max(d,0) and only due messages are ready; no operation moves next_run_at into the past; an expired lease is visible to the next dequeue on the memory flavour and to every sweeping dequeue on SQLite; for every history with a non-decreasing clock every live SQLite lease ends after the last sweep (invariant by induction), hence a dequeue at least one sweep interval (10 ms, constant regenerated from sqlite.go) after expiry sweeps and offers the message; a restart resets the throttle. Tied to the code by per-step correspondence on dequeue-heavy histories with clock steps of +-1 ns around lease ends, delays and the 10 ms gate, reopen of the SQLite file, and a >1024-insert history (memory order-log compaction).",
+        "design_ref": "DESIGN.md section 5 C05, section 12",
+        "note": "Trusted: Coq kernel (coqc 8.16.1, vm_compute; no axioms: every Print Assumptions is closed); the correspondence harness (Go harness mounted with -overlay, Python driver, checksum comparison of result + complete stored state after every step); store methods are treated as atomic steps (one mutex / one SQLite transaction on one pooled connection) and histories are sequential; the SQLite engine itself; Postgres backend cannot run here (read only). Payload/headers/trace are opaque handles in this model. Nondeterministic choices of the store (which ready messages a dequeue picks, generated ids, victims among equally old messages) are oracle inputs validated by the model, not predicted. Wall-clock long-poll wake-ups (MaxWait) are timing behaviour outside the model; process-kill restarts are exercised by C01.",
+        "technique": "Coq proof (incl. history invariant for the sweep throttle) + per-step differential correspondence with both real stores",
+    },
+    "C12": {
+        "category": "proof",
+        "text": "Queue part - Coq theorems: a refused enqueue (full, duplicate, pressure) returns exactly the pruned input state (nothing evicted, stored or touched); a successful enqueue leaves active <= max_depth; along every history without operator requeue/resume active <= max_depth (invariant); only enqueue and operator requeue/resume raise the active count; SQLite evicts exactly max(0, need - max_depth) distinct queued messages, the memory plan evicts distinct queued messages until not full; the victim is an oldest queued message on both backends; evictions only for a successful enqueue under drop_oldest (C02 removal relation). Rate-limit and size part (Properties/C12rl.v, lib/c12rl.py): see notes. Tied to the code by per-step correspondence on small-max_depth histories (duplicates, over-sized batches) on both stores.",
+        "design_ref": "DESIGN.md section 5 C12, section 12",
+        "note": "Trusted: Coq kernel (coqc 8.16.1, vm_compute; no axioms: every Print Assumptions is closed); the correspondence harness (Go harness mounted with -overlay, Python driver, checksum comparison of result + complete stored state after every step); store methods are treated as atomic steps (one mutex / one SQLite transaction on one pooled connection) and histories are sequential; the SQLite engine itself; Postgres backend cannot run here (read only). Payload/headers/trace are opaque handles in this model. Nondeterministic choices of the store (which ready messages a dequeue picks, generated ids, victims among equally old messages) are oracle inputs validated by the model, not predicted.",
+        "technique": "Coq proof + per-step differential correspondence with both real stores",
+    },
+    "C13": {
+        "category": "proof",
+        "text": "Coq theorems locating every place the two backend flavours of the model can differ: all lease, operator, listing, lookup and stats operations are flavour-free (same result, same observable state for all arguments); dequeue agrees whenever the SQLite call sweeps (else: the bounded delay of C05); enqueue agrees without a limit or under reject as long as the memory-only resource rules do not fire (partial: under drop_oldest agreement is up to the choice of victim, both proved oldest). Tied to the code twice: each real backend is compared step by step with the model of its own flavour, and the two real stores are compared with each other directly on the same histories (every return value and the full stored state after every step, generated ids and lease ids canonically renamed; comparison of a history stops at a sanctioned different choice among eligible messages).",
+        "design_ref": "DESIGN.md section 5 C13, section 12",
+        "note": "Trusted: Coq kernel (coqc 8.16.1, vm_compute; no axioms: every Print Assumptions is closed); the correspondence harness (Go harness mounted with -overlay, Python driver, checksum comparison of result + complete stored state after every step); store methods are treated as atomic steps (one mutex / one SQLite transaction on one pooled connection) and histories are sequential; the SQLite engine itself; Postgres backend cannot run here (read only). Payload/headers/trace are opaque handles in this model. Nondeterministic choices of the store (which ready messages a dequeue picks, generated ids, victims among equally old messages) are oracle inputs validated by the model, not predicted. Postgres is not executed. The drop_oldest victim-choice case of the enqueue agreement is not a theorem (named _partial).",
+        "technique": "Coq proof (flavour agreement lemmas) + double differential: store vs model per flavour, memory store vs SQLite store directly",
+    },
+    "C14": {
+        "category": "proof",
+        "text": "Coq theorems: by-id mutations change exactly the named messages that are in an allowed state (allowed sets proved equal to the documented ones), exactly as defined, leave every other message identical, create nothing, and report the number changed; cancel voids the lease; the by-filter selection is a newest-first (received_at, id descending; sortedness and permutation of insertion sort proved) prefix of at most limit (default 100, cap 1000) of exactly the matching messages from allowed states; contradictory state selects nothing; preview changes nothing and reports the count a real run matches; a real run changes exactly what it matched. Tied to the code by per-step correspondence on populations with many received_at ties, every id-list/filter shape (limits 0, 1, 1000, 1001, negative; cursors on ties), both backends.",
+        "design_ref": "DESIGN.md section 5 C14, section 12",
+        "note": "Trusted: Coq kernel (coqc 8.16.1, vm_compute; no axioms: every Print Assumptions is closed); the correspondence harness (Go harness mounted with -overlay, Python driver, checksum comparison of result + complete stored state after every step); store methods are treated as atomic steps (one mutex / one SQLite transaction on one pooled connection) and histories are sequential; the SQLite engine itself; Postgres backend cannot run here (read only). Payload/headers/trace are opaque handles in this model. Nondeterministic choices of the store (which ready messages a dequeue picks, generated ids, victims among equally old messages) are oracle inputs validated by the model, not predicted. The HTTP/MCP request parsing in front of the store (id-list caps, unknown fields) is not modelled in this revision.",
+        "technique": "Coq proof + per-step differential correspondence with both real stores",
+    },
+    "C18": {
+        "category": "proof",
+        "text": "Coq theorems (Properties/C18.v): a failed reload (read/parse/compile/restart-required/secret loading) leaves the runtime record unchanged for arbitrary external behaviours; the reload publishes all fields in one write so every reachable runtime state is uniformly one version (single-write theorem, after fix 337ce64); per-request atomicity is REFUTED for the code's separately locked per-request reads (witness schedules) and PROVED for a one-snapshot design; a verified checker replace_ok of file-system traces is sound for every crash prefix and persistence choice (content is OLD or NEW); mutation validation/rollback model. Tied to the code by running the real reloadConfig with injected failures and fingerprinting 98 decisions before/after, by forcing reloads between every pair of per-request accessors on the real runtimeState/ingress.Server, by strace traces of the real writeFileAtomic (app and mcp) fed to replace_ok plus SIGKILL at every syscall, and by failure injection into the real config mutations.",
+        "design_ref": "DESIGN.md section 5 C18, docs/notes/C18.md",
+        "note": "Known findings (known_findings.jsonl): 11 pairs of per-request accessors between which a completed reload yields a mixed-configuration request; printed as KNOWN-FINDING. Trusted: Coq kernel; strace trace parser; the file-system semantics of Model/FsAtomic.v (atomic rename, fsync durability); source lint comparing accessor/lock structure with the model. Admin and gRPC handlers are covered by the decision fingerprint and the model theorems only.",
+        "technique": "Coq proof (frame, single-write, verified fs-trace checker) + schedule-forcing differential run + syscall-trace validation",
+    },
     "C20": {
         "category": "proof",
         "text": "Coq theorems (Properties/C20.v) over the gate model whose tables and check order are regenerated from internal/mcp/server.go on every run: the gate is exactly the documented conjunction for every string and setting, list = call, dispatch only behind the gate, one audit record per mutating call, actor binding and config-path confinement; the code tables equal the documented spec.md table. Tied to the code by the translator plus an exhaustive run of the complete finite gating table through the real server (tools/list, tools/call frames, toolAccessError) and confinement/actor cases.",
